@@ -1,3 +1,86 @@
-"""thorough tier: apply the property's mutant / benign corpus to scratch copies and re-run the rules (filled in later)"""
-def run_for_property(prop, root):
-    return {"summary": {"mutants_total": 0}, "errors": []}
+"""Self-validation of the rules (thorough tier and `./check --selftest`).
+
+Each corpus entry is one textual edit of a file under textx/.  The edit is applied to a scratch copy of the analysed
+tree's `textx/` directory (fresh mkdtemp outside /repo and /verif, removed afterwards), the property's rules are re-run
+on the copy and the finding keys are compared with those of the unedited tree:
+   mutant  (expect kill)   : must produce a new finding or an analysis error
+   benign  (expect silent) : must produce no new finding and no analysis error
+   info                    : recorded only
+Entries whose `old` text is not present in the analysed tree are skipped (counted).  Nothing of textX is executed."""
+import json, os, shutil, tempfile, multiprocessing
+HERE = os.path.dirname(os.path.abspath(__file__))
+
+def load_corpus():
+    out = []
+    for fn in sorted(os.listdir(HERE)):
+        if fn.startswith("corpus") and fn.endswith(".json"): out += json.load(open(os.path.join(HERE, fn)))
+    return out
+
+def _keys(res):
+    from sa.report import fkey
+    return {fkey(f) for f in res.findings}
+
+def _one(args):
+    prop, root, m, base_keys = args
+    from sa import report
+    d = tempfile.mkdtemp(prefix="sa_selftest_")
+    try:
+        shutil.copytree(os.path.join(root, "textx"), os.path.join(d, "textx"), ignore=shutil.ignore_patterns("__pycache__"))
+        p = os.path.join(d, m["path"])
+        if not os.path.exists(p): return (m["name"], "skip", "file missing")
+        s = open(p, encoding="utf-8").read()
+        if m["old"] not in s: return (m["name"], "skip", "anchor text not present")
+        open(p, "w", encoding="utf-8").write(s.replace(m["old"], m["new"], 1))
+        res = report.analyse(prop, d)
+        new = _keys(res) - set(base_keys)
+        if new: return (m["name"], "finding", sorted(new)[0][1] + " " + sorted(new)[0][3] + " [" + sorted(new)[0][4][:80] + "]")
+        if res.errors: return (m["name"], "error", "%s: %s" % res.errors[0])
+        return (m["name"], "silent", "")
+    finally:
+        shutil.rmtree(d, ignore_errors=True)
+
+def run_for_property(prop, root, jobs=None, corpus=None):
+    from sa import report
+    corpus = corpus if corpus is not None else load_corpus()
+    sel = [m for m in corpus if m["prop"] == prop or (m["kind"] == "benign" and prop in m.get("props", [prop]))]
+    if not sel: return {"summary": {"mutants_total": 0, "benign_total": 0}, "weak": [], "noisy": []}
+    base = report.analyse(prop, root); base_keys = sorted(_keys(base))
+    jobs = jobs or min(16, os.cpu_count() or 4, len(sel))
+    tasks = [(prop, root, m, base_keys) for m in sel]
+    if jobs > 1:
+        with multiprocessing.get_context("fork").Pool(jobs) as pool: results = pool.map(_one, tasks, chunksize=1)
+    else: results = [_one(t) for t in tasks]
+    by = {m["name"]: m for m in sel}
+    weak, noisy, rows = [], [], []
+    cnt = {"mutants_total": 0, "mutants_killed": 0, "mutants_skipped": 0, "benign_total": 0, "benign_silent": 0, "benign_skipped": 0, "info_total": 0, "info_killed": 0}
+    for name, verdict, detail in results:
+        m = by[name]; rows.append({"name": name, "kind": m["kind"], "expect": m["expect"], "verdict": verdict, "detail": detail, "suite": m.get("suite", "?")})
+        if m["expect"] == "kill":
+            if verdict == "skip": cnt["mutants_skipped"] += 1; continue
+            cnt["mutants_total"] += 1
+            if verdict in ("finding", "error"): cnt["mutants_killed"] += 1
+            else: weak.append(name)
+        elif m["expect"] == "silent":
+            if verdict == "skip": cnt["benign_skipped"] += 1; continue
+            cnt["benign_total"] += 1
+            if verdict == "silent": cnt["benign_silent"] += 1
+            else: noisy.append("%s (%s %s)" % (name, verdict, detail))
+        else:
+            if verdict != "skip":
+                cnt["info_total"] += 1
+                if verdict in ("finding", "error"): cnt["info_killed"] += 1
+    cnt["rows"] = rows
+    return {"summary": cnt, "weak": weak, "noisy": noisy}
+
+def main(root="/repo", props=None):
+    """./check --selftest : every property; exit 2 if a must-kill mutant survives or a benign variant is noisy"""
+    from sa import props as P
+    bad = 0
+    for prop in sorted(props or P.P):
+        r = run_for_property(prop, root); s = r["summary"]
+        print("%s mutants %d/%d killed (%d skipped)  benign %d/%d silent  info %d/%d" % (prop, s.get("mutants_killed", 0), s.get("mutants_total", 0), s.get("mutants_skipped", 0), s.get("benign_silent", 0), s.get("benign_total", 0), s.get("info_killed", 0), s.get("info_total", 0)))
+        for w in r["weak"]: print("   WEAK: must-kill mutant survives: " + w); bad += 1
+        for n in r["noisy"]: print("   NOISY: benign variant raises: " + n); bad += 1
+        for row in s.get("rows", []):
+            if row["expect"] == "info" and row["verdict"] == "silent": print("   info survives: %s (suite: %s)" % (row["name"], row["suite"]))
+    return 2 if bad else 0
